@@ -91,6 +91,19 @@ CHECKS = {
         note="Trusted: Lean kernel; axioms propext/Quot.sound/Classical.choice; native-tls/OpenSSL handshake and X.509 verification (input of the "
              "model, exercised with real certificates: partial); model + scripted TLS peer harness; fixtures/ (committed, regenerable with tools/fixtures.sh).",
         technique="Lean 4 proof of the TLS decision logic (handshake as input) + model-vs-code correspondence with real TLS handshakes"),
+    "C20": dict(
+        category="proof",
+        text="Lean theorems on the client/pool model with a peer that goes silent: send_waits_at_most_twice (at any stall position a send "
+             "waits on at most two reads, then fails and the connection is shut), sync_send_bounded (<= 2T with the sync client's socket "
+             "timeouts), waiting_read_is_error, broken_not_parked, tokio_unbounded_witness (the tokio client has no read deadline: known "
+             "finding). Partial: real time is the kernel's and tokio's. Correspondence: SmtpTransport and tokio AsyncSmtpTransport with "
+             "timeout T against a multi-connection scripted peer that goes silent at every dialogue position (incl. mid-line and on the "
+             "NOOP probe of a pooled connection); results, transcripts of every connection, elapsed time and is_timeout() are checked; "
+             "the following send must succeed on a fresh connection.",
+        design_ref="DESIGN.md 5 C20",
+        note="Trusted: Lean kernel; axioms propext/Quot.sound/Classical.choice; socket timeouts and timers (A7, measured with a generous bound); model + "
+             "scripted peer harness. Known finding: tokio transport has no I/O deadline (hangs). Fixed: is_timeout() for WouldBlock.",
+        technique="Lean 4 proof on a deadline/wait-count model + timed model-vs-code correspondence over loopback"),
 }
 
 NOT_APPLICABLE = {
